@@ -8,7 +8,6 @@ import (
 	"encoding/json"
 	"flag"
 	"fmt"
-	"os"
 	"runtime"
 	"strconv"
 	"strings"
@@ -659,15 +658,12 @@ func main() {
 	for i := 0; i < run.N; i++ {
 		runHist(run, genHist(r, run.Tier == "thorough"))
 	}
-	// processors that skip inputs (see lazy.go): Go-judged; on until fixes/C11-unread-stale-input.patch has landed
-	// these histories reproduce a known finding, so the stream is opt-in
-	if os.Getenv("VERIF_C11_LAZY") == "1" {
-		for _, d := range fixedLazy() {
-			runLazy(run, d)
-		}
-		for i := 0; i < run.N/5; i++ {
-			runLazy(run, genLazy(r))
-		}
+	// processors that skip inputs (see lazy.go)
+	for _, d := range fixedLazy() {
+		runLazy(run, d)
+	}
+	for i := 0; i < run.N/5; i++ {
+		runLazy(run, genLazy(r))
 	}
 	run.Finish()
 }
